@@ -83,6 +83,8 @@ def obs_events(chk):
     directed = [(32, 1.0, 1, False), (32, 1.0, 1, True), (33, 2.0, 1, True), (24, 1.5, 3, False), (40, 2.5, 5, True), (16, 2.0, 4, False)]
     # more tapers than 2NW requested explicitly: the caller gets as many eigenspectra as asked for
     directed += [(32, 2.0, 6, False), (33, 1.5, 5, True), (64, 2.5, 7, False)]
+    # large time-bandwidth products: the leading concentrations are 1 to rounding (taper i is still the i-th Slepian sequence)
+    directed += [(64, 8.0, 16, False), (128, 10.0, 12, True)]
     for rep in range(reps + len(directed)):
         if rep < len(directed):
             N, NW, k, cplx = directed[rep]
